@@ -53,7 +53,7 @@ def enc_req0(m):
     auth = {"anon": "AuthAnon", "ok": "AuthOk", "fail": "AuthFail"}[m["auth"]]
     a = abstract_cl(m.get("cl"))
     cl = {"absent": "ClAbsent", "bad": "ClBad"}.get(a[0]) or "(ClInt %s)" % enc_Z(a[1])
-    return "(mkReq %s %s %s %s %s)" % (pref, enc_bool(m["method"]), wk, auth, cl)
+    return "(mkReq %s %s %s %s %s %s)" % (pref, enc_bool(m["method"]), wk, auth, cl, enc_bool(bool(m.get("body"))))
 
 
 def enc_cfg(cfg):
@@ -66,8 +66,8 @@ def enc_event(e):
     if k == "EConnect":
         return "EConnect %s" % enc_N(e[1])
     if k == "ESend":
-        return "ESend %s %s" % (enc_N(e[1]), enc_req(e[2]))
-    if k in ("EClose", "ERelease", "TRead", "TTimeout"):
+        return "ESend %s %s %s" % (enc_N(e[1]), enc_req(e[2]), enc_bool(e[3]))
+    if k in ("EClose", "ERelease", "TRead", "TTimeout", "EPartial", "EBody", "TBody"):
         return "%s %s" % (k, enc_N(e[1]))
     if k == "LBody":
         return "LBody %s" % ("None" if e[1] is None else "(Some %s)" % enc_N(e[1]))
@@ -78,7 +78,7 @@ def enc_event(e):
 
 def enc_obs(o):
     k = o[0]
-    if k in ("ONewConn", "OEnter", "OTimedOut", "OEofSeen", "OHandlerDone", "OWaited"):
+    if k in ("ONewConn", "OEnter", "OTimedOut", "OEofSeen", "OHandlerDone", "OWaited", "OBodyRead", "OBodyTimedOut"):
         return "%s %s" % (k, enc_N(max(o[1], 0) if o[1] >= 0 else 999999))
     if k == "ORlist":
         return "ORlist %s %s" % (enc_listN(o[1]), enc_bool(o[2]))
